@@ -244,9 +244,10 @@ Proof.
   destruct st; cbn [exec guard] in *.
   - apply WF_empty.
   - destruct (_ && _); [|exact W]. destruct W. constructor; auto.
+  - destruct (_ && _); [|exact W]. apply SubCase. now apply Sub_same_links.
   - destruct (_ && _); [|exact W]. apply OptCase. intros s' E.
-    destruct (create_mailbox_row (d_st d) name t) as [[s1 i]|] eqn:Cr; [|discriminate].
-    cbn in E. inversion E. subst. eapply Sub_create; eauto.
+    unfold insert_mailbox_row in E. destruct name; [discriminate|].
+    destruct (find_name (d_st d) _); [discriminate|]. inversion E. now apply Sub_same_links.
   - destruct (_ && _); [|exact W]. destruct (mboxes (d_st d)); [|exact W]. apply SubCase. apply Sub_default_rows.
   - (* INSERT messages *)
     destruct W as [W1 W2 W3 W4]. unfold store_message. constructor; cbn [d_st d_msgs links next_msg]; auto.
@@ -398,12 +399,14 @@ Proof.
   - apply forallb_forall. intros x H. apply in_map_iff in H. destruct H as (i & <- & _). reflexivity.
   - apply forallb_forall. intros x H. apply in_map_iff in H. destruct H as (i & <- & _). reflexivity.
   - destruct (trim_suffix name [SLASH]); [reflexivity|]. destruct (str_eqb _ _); [reflexivity|].
+    destruct (is_role_ns _); [reflexivity|].
     destruct (find_name s _); [reflexivity|]. rewrite forallb_app, parent_steps_plain.
     destruct (create_mailbox_row _ _ _); reflexivity.
   - destruct name; [reflexivity|]. destruct (str_eqb _ _); [reflexivity|].
     destruct (find_name s _); [|reflexivity]. destruct (children s _); [|reflexivity].
     destruct (existsb _ _); reflexivity.
-  - destruct old; [reflexivity|]. destruct new; [reflexivity|]. destruct (str_eqb _ _); [reflexivity|].
+  - destruct old; [reflexivity|]. destruct new; [reflexivity|]. destruct (is_role_ns _); [reflexivity|].
+    destruct (str_eqb _ _); [reflexivity|].
     destruct (str_eqb _ _).
     + destruct (find_name s _); [reflexivity|]. destruct (find_name s INBOX); [|reflexivity].
       rewrite forallb_app, parent_steps_plain.
@@ -426,8 +429,8 @@ Proof.
     unfold deliver_steps. destruct (find_name (d_st d) f) as [m|].
     + cbn [app]. apply guards_store_and_link; auto. destruct (add_ok _ _); reflexivity.
     + destruct (create_mailbox_row (d_st d) f t) as [[s' id]|] eqn:Cr; [|exact I].
-      cbn [app guards_along guard]. split; [exact I|].
-      rewrite exec_ins_mailbox, Cr by auto. cbn [option_map fst opt_st].
+      apply guards_app. split; [apply guards_plain; reflexivity|].
+      rewrite (create_steps_refines d f t s' id Hr Cr).
       pose proof (guards_store_and_link (with_st d s') id [] sh
                     (if add_ok s' id then [MInsDelivery] else [])) as X.
       cbn [d_st with_st] in X. apply X.
